@@ -493,7 +493,7 @@ class C01(C.Check):
         self.cases = []
         todo = []
         for c in ctx.corpus():
-            if "expr" in c:
+            if "expr" in c and c.get("cfg") in worlds:       # cfg multi / blockdiag: oracle only
                 todo.append((c["cfg"], c["expr"]))
         todo += self.templates(ctx)
         for cfg, depth, s, sand in self.gen(ctx):
